@@ -644,7 +644,8 @@ func ruleCursorReport(c *Ctx) {
 		g := false
 		for _, f := range fg.DominatingFacts(s) {
 			be, ok := ast.Unparen(f.E).(*ast.BinaryExpr)
-			if ok && !f.Neg && be.Op == token.EQL && (selField(info, be.X) == items && selField(info, be.Y) == limit || selField(info, be.X) == limit && selField(info, be.Y) == items) {
+			// numberItems == limit holds: as the true edge of ==, or the false edge of != (an inverted guard)
+			if ok && (!f.Neg && be.Op == token.EQL || f.Neg && be.Op == token.NEQ) && (selField(info, be.X) == items && selField(info, be.Y) == limit || selField(info, be.X) == limit && selField(info, be.Y) == items) {
 				g = true
 			}
 		}
